@@ -25,6 +25,7 @@ func (x *Exec) entry(fn *ssa.Function) ([]Val, State) {
 	S := x.vc.S
 	st := State{Maps: map[string]string{}, Ghost: map[string]string{}}
 	st.Mem = x.vc.declMem("M0")
+	x.vc.baseMem = st.Mem
 	S.raw("(declare-fun A0 () Int)")
 	S.raw(fmt.Sprintf("(assert (> A0 %d))", maxGlobals))
 	st.Alloc = "A0"
